@@ -7,7 +7,6 @@ package qh
 import (
 	"errors"
 	"fmt"
-	"os"
 	"sort"
 	"strings"
 	"sync"
@@ -156,11 +155,6 @@ func (h *harness) logf(format string, a ...any) {
 }
 
 func (h *harness) fail(key, msg string) {
-	for _, p := range strings.Split(os.Getenv("QH_SKIP"), ",") { // development knob only
-		if p != "" && strings.HasPrefix(key, p) {
-			return
-		}
-	}
 	h.hm.Lock()
 	defer h.hm.Unlock()
 	for _, f := range h.fails {
@@ -489,6 +483,10 @@ func Scenarios(thorough bool) []*Scenario {
 	var out []*Scenario
 	for _, b := range base {
 		for _, c := range []int{2, 3} {
+			// quick: the two largest families only with cache size 2
+			if !thorough && c == 3 && (b.Discard || len(b.Producers) == 3) {
+				continue
+			}
 			for _, m := range []bqueue.OperationMode{bqueue.NonBlocking, bqueue.Blocking} {
 				s := b
 				s.Cap, s.Mode = c, m
